@@ -94,8 +94,10 @@ func (c c38Cfg) String() string {
 func (c c38Cfg) describe() string {
 	var on []string
 	for d, v := range c {
-		if v != 0 {
+		if v == 1 {
 			on = append(on, c38DimNames[d])
+		} else if v > 1 {
+			on = append(on, fmt.Sprintf("%s#%d", c38DimNames[d], v+1))
 		}
 	}
 	if len(on) == 0 {
@@ -162,8 +164,13 @@ func c38Options(c c38Cfg, dir string) index.Options {
 		ShardMax:         pick(c38ShardMax, 1<<20, 120).(int),
 		Parallelism:      pick(c38Parallelism, 4, 1).(int),
 	}
-	if c[c38LargeFiles] != 0 {
-		o.LargeFiles = []string{"large.*"}
+	switch c[c38LargeFiles] {
+	case 1:
+		// the last matching pattern wins: large.txt is allowed
+		o.LargeFiles = []string{"!large.txt", "large.*"}
+	case 2:
+		// the same patterns in the other order: large.txt is NOT allowed
+		o.LargeFiles = []string{"large.*", "!large.txt"}
 	}
 	if c[c38LanguageMap] != 0 {
 		o.LanguageMap = ctags.LanguageMap{"go": ctags.ScipCTags}
@@ -486,6 +493,15 @@ func c38CopyDir(src, dst string) error {
 	return nil
 }
 
+// c38Arity is the number of values of a dimension: two, except LargeFiles, which also has a
+// third value that is a permutation of the second with a different meaning (order matters).
+func c38Arity(d int) uint8 {
+	if d == c38LargeFiles {
+		return 3
+	}
+	return 2
+}
+
 // c38Neighbours returns every configuration that differs from c in at most k dimensions.
 func c38Neighbours(c c38Cfg, k int) []c38Cfg {
 	out := []c38Cfg{c}
@@ -495,10 +511,15 @@ func c38Neighbours(c c38Cfg, k int) []c38Cfg {
 			return
 		}
 		for d := start; d < c38NDims; d++ {
-			n := cur
-			n[d] ^= 1
-			out = append(out, n)
-			rec(d+1, n, left-1)
+			for v := uint8(0); v < c38Arity(d); v++ {
+				if v == cur[d] {
+					continue
+				}
+				n := cur
+				n[d] = v
+				out = append(out, n)
+				rec(d+1, n, left-1)
+			}
 		}
 	}
 	rec(0, c, k)
